@@ -38,6 +38,9 @@ ScalarClasses == {"zero", "one", "r_minus_1", "r", "r_plus_5", "max", "byte80"}
 
 BinMutations(t) ==
   {M("none", "", ""), M("trunc", "", ""), M("trunc_all", "", ""), M("extend", "", "")}
+  \* a byte in front of a valid encoding (a tag of another type's format, a zero, 0xff): an exact-length conversion
+  \* refuses it; for the others everything shifts and the outcome is whatever the shifted bytes say
+  \cup {M("prepend", "", c) : c \in {"0", "1", "2", "255"}}
   \cup {M("point", f.name, c) : f \in {x \in FieldsOf(t) : x.kind \in PointKinds}, c \in PointClasses}
   \cup {M("scalar", f.name, c) : f \in {x \in FieldsOf(t) : x.kind \in {"scalar", "scalarLE"}}, c \in ScalarClasses}
   \cup {M("tag", f.name, c) : f \in {x \in FieldsOf(t) : x.kind \in {"tag_variant", "tag_scheme", "tag_curve", "tag_share"}}, c \in {"0", "1", "2", "3", "7", "255"}}
@@ -54,7 +57,7 @@ JsonLeaves(t) == IF Types[t].lazy THEN <<F("share", "share")>> ELSE HexFields(Ty
 CountKind(t, ks) == Cardinality({i \in 1..Len(JsonLeaves(t)) : JsonLeaves(t)[i].kind \in ks})
 JsonMutations(t) ==
   {M("none", "", ""), M("trunc", "", ""), M("trunc_all", "", ""), M("extend", "", "")}
-  \cup {ML("hex", i - 1, c) : i \in 1..Len(JsonLeaves(t)), c \in {"nonhex", "odd", "short", "long", "empty", "upper", "utf8"}}
+  \cup {ML("hex", i - 1, c) : i \in 1..Len(JsonLeaves(t)), c \in {"nonhex", "odd", "short", "long", "empty", "upper", "utf8", "plus", "blank"}}
   \cup (IF t = "SecretKeyShare" THEN {}
         ELSE {ML("point", i - 1, c) : i \in 1..CountKind(t, PointKinds \cup {"share"}), c \in PointClasses})
   \cup {ML("scalar", i - 1, c) : i \in 1..CountKind(t, {"scalar"}), c \in ScalarClasses}
@@ -63,7 +66,7 @@ JsonMutations(t) ==
   \* these is not fixed by any property (unknown keys are ignored today, a sequence is accepted for a struct), so the
   \* verdict is unconstrained ("Any" = Ok or Err); the decoder must not abort, all front ends must agree, and whatever decodes is
   \* a value every consumer can take
-  \cup {M("shape", "", c) : c \in {"dupkey", "extrakey", "reorder", "array", "null", "number", "nested", "blanks", "deep"}}
+  \cup {M("shape", "", c) : c \in {"dupkey", "extrakey", "reorder", "array", "null", "number", "nested", "blanks", "deep", "names"}}
 
 Mutations(t, codec) == IF codec = "json" THEN JsonMutations(t) ELSE BinMutations(t)
 
@@ -108,6 +111,7 @@ Decode(t, codec, variant, m) ==
     [] m.kind = "tag"    -> Res(TagOutcome(FieldKind(t, m.field), m.class, codec), (m.class = OwnTag(t, variant, m.field)) \/ (FieldKind(t, m.field) \in {"tag_scheme", "tag_share"} /\ variant = "Pop" /\ m.class \notin {"0", "1"} /\ (FieldKind(t, m.field) = "tag_scheme" \/ codec = "bytes")), "-")
     [] m.kind = "id"     -> Res("Ok", FALSE, IF m.class = "0" THEN "Err" ELSE "Ok")
     [] m.kind = "varlen" -> Res("Err", FALSE, "-")
+    [] m.kind = "prepend" -> IF codec = "bytes" /\ ty.exact THEN Res("Err", FALSE, "-") ELSE Res("Any", FALSE, "-")
     [] m.kind = "shape"  -> Res("Any", FALSE, "-")        \* Ok or Err, nothing else
     [] m.kind = "hex"    -> IF m.class = "upper" THEN Res("Ok", TRUE, IF ty.lazy THEN "Ok" ELSE "-") ELSE Res("Err", FALSE, "-")
 
